@@ -38,17 +38,31 @@ type c14Item struct {
 	Filter   string `json:"filter"`
 	Weighted bool   `json:"weighted"`
 }
+
+// multi: several selector objects, each with several generations, created in order; steps run on them in order
+type c14Step struct {
+	Sel      int    `json:"sel"`
+	Gen      uint   `json:"gen"`
+	Op       string `json:"op"` // select | selphantom | list
+	Seed     string `json:"seed"`
+	LV       uint   `json:"lv"`
+	V6       bool   `json:"v6"`
+	Filter   string `json:"filter"`
+	Weighted bool   `json:"weighted"`
+}
 type c14Case struct {
-	Op       string    `json:"op"`
-	Seed     string    `json:"seed"`
-	Cfg      *c14Cfg   `json:"cfg"`
-	LV       uint      `json:"lv"`
-	V6       bool      `json:"v6"`
-	Filter   string    `json:"filter"`
-	Weighted bool      `json:"weighted"`
-	Items    []c14Item `json:"items"`
-	Workers  int       `json:"workers"`
-	Rounds   int       `json:"rounds"`
+	Selectors []map[string]*c14Cfg `json:"selectors"`
+	Steps     []c14Step            `json:"steps"`
+	Op        string               `json:"op"`
+	Seed      string               `json:"seed"`
+	Cfg       *c14Cfg              `json:"cfg"`
+	LV        uint                 `json:"lv"`
+	V6        bool                 `json:"v6"`
+	Filter    string               `json:"filter"`
+	Weighted  bool                 `json:"weighted"`
+	Items     []c14Item            `json:"items"`
+	Workers   int                  `json:"workers"`
+	Rounds    int                  `json:"rounds"`
 }
 type c14Res struct {
 	Out     string   `json:"out"`
@@ -61,6 +75,8 @@ type c14Res struct {
 	First      []c14Res `json:"first,omitempty"`
 	Again      []c14Res `json:"again,omitempty"`
 	CfgChanged string   `json:"cfg_changed,omitempty"`
+	// list: SupportRandomPort of every network GetUnweightedSubnetList returns, in order ("T"/"F")
+	Flags string `json:"flags,omitempty"`
 	// conc
 	Serial []c14Res `json:"serial,omitempty"`
 	Diffs  int      `json:"diffs"`
@@ -227,6 +243,62 @@ func c14SelPhantom(c *c14Cfg, seed []byte, filter string, weighted bool) (r c14R
 	return c14SelPhantomOn(list, c, seed, filter, weighted)
 }
 
+// steps over several selector objects / generations in ONE process, in the given order; every selector is
+// created only when the first step that uses it is reached (a configuration loaded later in the process)
+func c14Multi(cs c14Case) c14Res {
+	var r c14Res
+	r.Out = "multi"
+	sels := make([]*PhantomIPSelector, len(cs.Selectors))
+	get := func(i int) *PhantomIPSelector {
+		if sels[i] == nil {
+			sel := &PhantomIPSelector{Networks: map[uint]*SubnetConfig{}}
+			for g, c := range cs.Selectors[i] {
+				var id uint
+				fmt.Sscanf(g, "%d", &id)
+				sel.Networks[id] = &SubnetConfig{WeightedSubnets: c14Groups(c)}
+			}
+			sels[i] = sel
+		}
+		return sels[i]
+	}
+	for _, st := range cs.Steps {
+		sel := get(st.Sel)
+		cfg := cs.Selectors[st.Sel][fmt.Sprint(st.Gen)]
+		seed, _ := hex.DecodeString(st.Seed)
+		var one c14Res
+		func() {
+			defer func() {
+				if e := recover(); e != nil {
+					one = c14Res{Out: "panic", Err: fmt.Sprint(e)}
+				}
+			}()
+			switch st.Op {
+			case "selphantom":
+				one = c14SelPhantomOn(&pb.PhantomSubnetsList{WeightedSubnets: sel.Networks[st.Gen].WeightedSubnets}, cfg, seed, st.Filter, st.Weighted)
+			case "list":
+				nets, err := GetUnweightedSubnetList(&pb.PhantomSubnetsList{WeightedSubnets: sel.Networks[st.Gen].WeightedSubnets})
+				if err != nil {
+					one = c14Res{Out: "err", Err: err.Error()}
+				} else {
+					one = c14Res{Out: "ok"}
+					for _, n := range nets {
+						if n.SupportRandomPort() {
+							one.Flags += "T"
+						} else {
+							one.Flags += "F"
+						}
+					}
+				}
+			default:
+				p, err := sel.Select(seed, st.Gen, st.LV, st.V6)
+				one = c14Record(cfg, p, err)
+			}
+		}()
+		r.First = append(r.First, one)
+	}
+	return r
+}
+
 func c14Same(a, b c14Res) bool {
 	return a.Out == b.Out && a.IP == b.IP && a.RP == b.RP
 }
@@ -306,6 +378,8 @@ func TestVerifC14Phantoms(t *testing.T) {
 			res[i] = c14Conc(c)
 		case "hist":
 			res[i] = c14Hist(c)
+		case "multi":
+			res[i] = c14Multi(c)
 		}
 	}
 	out, _ := json.Marshal(res)
